@@ -116,3 +116,7 @@ C('C29', 'history + shadow model of live callbacks: address distinctness at ever
 C('C08', 'round-trip monitor on both FFIs with an independent oracle: the expected ctype is built with the backend constructors from a small interpreter of the declarator text; gcc compiles getctype(T,\'v\') declarations and prints sizeof',
   'Exploration: 100 distinct ctypes per declaration context (C07 generator) x plain name + 8 declarator suffixes from a fixed list and a random abstract-declarator grammar, on the in-line FFI and the C-parser FFI of the emitted module; typeof(getctype(T)) is T, typeof(getctype(T,x)) is the constructor-built object; one gcc probe per context for declarations and sizes.',
   'Types whose own source string gcc rejects are not given to gcc. Known finding: complex ctypes carry cffi-internal typedef names.')
+
+C('C14', 'record-and-compare monitor inside generated callbacks / extern "Python" functions invoked by compiled C trampolines, over scripted failure scenarios; sys.unraisablehook and onerror observed; ASan backend',
+  'Exploration: 30 random signatures per module (all integer sizes, _Bool, char, float, double, pointers, structs by value, void) x {ffi.callback, extern "Python"} x {normal, raises, unconvertible result} x {no error value, error=, onerror returning value/None/raising}; received arguments == passed arguments, result returned unchanged, C caller receives the declared error value or onerror\'s value, nothing escapes into the caller, exactly one error report.',
+  'Values are exactly representable in their C types; exception containment is observed at the Python caller of the trampoline.')
